@@ -218,6 +218,10 @@ type trace struct {
 
 // checkPairs: every (state, move) pair of one tree.
 func checkPairs(pre []int) *mc.Failure {
+	return mc.GuardT("cursor-pairs", trace{Pre: pre}, func() *mc.Failure { return checkPairs1(pre) })
+}
+
+func checkPairs1(pre []int) *mc.Failure {
 	t, r := buildTree(pre), buildRef(pre)
 	for _, k := range []int{-1, r.n, r.n + 1} {
 		if c := t.Cursor(k); c.Valid() || c != nil {
@@ -267,6 +271,10 @@ func checkPairs(pre []int) *mc.Failure {
 
 // checkSeq: one move sequence with clones taken at every prefix.
 func checkSeq(tr trace) *mc.Failure {
+	return mc.GuardT("cursor-seqs", tr, func() *mc.Failure { return checkSeq1(tr) })
+}
+
+func checkSeq1(tr trace) *mc.Failure {
 	t, r := buildTree(tr.Pre), buildRef(tr.Pre)
 	c, pos := start(t, r, tr.Start)
 	type held struct {
